@@ -451,8 +451,16 @@ func runCase(run *evid.Run, idx int) *caseResult {
 	if !c.stand && !familyB && faultMode == "nofault" && idx%4 == 0 && len(c.g.Branches) > 1 {
 		c.staleTrackingRef(kinds)
 	}
+	// every eighth case opens with the missing-object step in its "tolerated, but another upload is refused" form
+	forced := !c.stand && faultMode == "nofault" && idx%8 == 2
 	for s := 0; s < nsteps; s++ {
 		k := r.Intn(100)
+		if forced && s == 0 {
+			k = 99
+		}
+		if idx%8 == 6 && s == 0 && len(c.g.Branches) > 1 {
+			k = 83 // several refs in one `git lfs push` before anything else was pushed
+		}
 		switch {
 		case k < 25:
 			b := c.localBranch()
@@ -645,7 +653,11 @@ func runCase(run *evid.Run, idx int) *caseResult {
 			// missing-object clause
 			kinds["missing-object"] = true
 			b := c.localBranch()
-			c.newCommit(b)
+			if forced && s == 0 {
+				c.newCommitN(b, 3)
+			} else {
+				c.newCommit(b)
+			}
 			// objects of the new commit that the server lacks
 			var victims []histgen.PointerRef
 			for _, p := range c.model.PointersAt(b) {
@@ -664,12 +676,42 @@ func runCase(run *evid.Run, idx int) *caseResult {
 			}
 			os.Remove(op)
 			allow := c.r.Intn(4) == 0
+			// a tolerated missing object does not make other upload failures tolerable: with incomplete pushes
+			// allowed, another object of the same push (present locally) is refused by the storage server every time
+			refused := ""
+			if !allow && faultMode == "nofault" && !c.stand && len(victims) > 1 && ((forced && s == 0) || c.r.Intn(3) == 0) {
+				allow = true
+				for _, o := range victims {
+					if o.Ptr.Oid != v.Ptr.Oid {
+						refused = o.Ptr.Oid
+						break
+					}
+				}
+			}
 			if allow {
 				c.git("setup", "config", "lfs.allowincompletepush", "true")
+			}
+			if refused != "" {
+				kinds["missing-object-tolerated-plus-failing-upload"] = true
+				c.run.Count("incomplete_pushes_with_another_upload_refused", 1)
+				c.git("setup", "config", "lfs.transfer.maxretries", "1")
+				c.git("setup", "config", "lfs.transfer.maxretrydelay", "1")
+				status := []int{500, 403, 507}[c.r.Intn(3)]
+				srv.SetHook(func(rq *fakelfs.Request) *fakelfs.Fault {
+					if rq.Kind == "storage-put" && rq.Oid == refused {
+						return &fakelfs.Fault{Status: status}
+					}
+					return nil
+				})
 			}
 			before := c.rmodel.Refs()
 			p := c.git("push-missing", "push", "origin", b)
 			after := c.rmodel.Refs()
+			if refused != "" {
+				srv.SetHook(nil)
+				c.git("setup", "config", "--unset", "lfs.transfer.maxretries")
+				c.git("setup", "config", "--unset", "lfs.transfer.maxretrydelay")
+			}
 			c.run.Count("missing_object_pushes", 1)
 			if !allow {
 				if p.OK() {
@@ -741,7 +783,7 @@ func sortStrings(s []string) []string {
 func main() {
 	run := evid.New("C03", "exploration")
 	defer sbx.RemoveBase()
-	run.Rule = "seeded histories (histgen: branches, merges incl. octopus, orphan branches, tags, renames/copies/deletes, files moving in and out of LFS tracking, nested .gitattributes, symlinks, exec bits, empty files) pushed by seeded plans over {git push <branch>, --all, --tags, new commits, amended+forced, deleted refs, git lfs push <ref>, git lfs push --all, a second clone moving the remote branch, a branch deleted on the remote by someone else with its objects garbage-collected on the server and then merged and pushed again from a clone holding the stale tracking ref, missing local object with/without lfs.allowincompletepush} x batch size {1,2,3,100} x {http fake server, file:// standalone remote} x transient server faults in one http case out of three {PUT 503, PUT connection reset, batch 429, mixed, uploads answered 200 but lost while the verify action truthfully answers 404, upload actions that are already expired in the first answer, and the schedule 'an object uses up its retry budget, then meets objects not yet sent in a batch call that fails' with a bulk commit and a slow batch endpoint}; family b re-points the remote to an empty server. Oracle: brute-force enumeration (git rev-list/ls-tree/cat-file with filters disabled + ptrspec) of every pointer in every commit reachable from the remote's refs vs the server store. Class = (transport, family, batch size, set of step kinds)."
+	run.Rule = "seeded histories (histgen: branches, merges incl. octopus, orphan branches, tags, renames/copies/deletes, files moving in and out of LFS tracking, nested .gitattributes, symlinks, exec bits, empty files) pushed by seeded plans over {git push <branch>, --all, --tags, new commits, amended+forced, deleted refs, git lfs push <ref>, git lfs push --all, a second clone moving the remote branch, a branch deleted on the remote by someone else with its objects garbage-collected on the server and then merged and pushed again from a clone holding the stale tracking ref, one push deleting a ref and updating others (deletion first / in the middle / last), several refs in one git lfs push (also --stdin, also as the very first push), missing local object with/without lfs.allowincompletepush, a tolerated missing object together with another object whose upload the storage server refuses every time (500/403/507)} x batch size {1,2,3,100} x {http fake server, file:// standalone remote} x transient server faults in one http case out of three {PUT 503, PUT connection reset, batch 429, mixed, uploads answered 200 but lost while the verify action truthfully answers 404, upload actions that are already expired in the first answer, and the schedule 'an object uses up its retry budget, then meets objects not yet sent in a batch call that fails' with a bulk commit and a slow batch endpoint}; family b re-points the remote to an empty server. Oracle: brute-force enumeration (git rev-list/ls-tree/cat-file with filters disabled + ptrspec) of every pointer in every commit reachable from the remote's refs vs the server store. Class = (transport, family, batch size, set of step kinds)."
 	run.Assumptions = []string{"family a: the fake server never loses objects and remote-tracking refs only change through push/fetch against the same server, so 'reachable from remote refs => on server' is an invariant every correct implementation maintains", "pointers are the canonical non-empty pointers found in any tree (the generator creates no look-alikes)", "git 2.39.5"}
 	n := run.N(40, 400)
 	workers := runtime.NumCPU()
